@@ -71,12 +71,21 @@ class SeqBox:           # symbolic-length local list (after a loop havoc)
         return SeqBox(self.term, self.elem, self.kind)
 
 
-class AbsBox:           # opaque local collection: may be appended to, never read
-    def __init__(self, kind="list"):
+class AbsBox:           # abstract collection: symbolic length, elements of an annotated shape (or opaque)
+    def __init__(self, kind="list", length=None, elem_ann=None):
         self.kind = kind
+        self.length = length          # z3 Int (>= 0) or None when unknown
+        self.elem_ann = elem_ann      # ast annotation of the elements, or None (reads unsupported)
 
     def clone(self):
-        return self
+        return AbsBox(self.kind, self.length, self.elem_ann)
+
+
+class LambdaV:
+    def __init__(self, node, env, fi):
+        self.node = node
+        self.env = env
+        self.fi = fi
 
 
 class ObjBox:           # instance of a repo class (or exception) with symbolic fields
